@@ -213,7 +213,18 @@ def raw_element(k):
     c = Element("inner")
     c.setText("t<&>%d" % k)
     e.append(c)
+    if k % 2:
+        e.setText("lead%d" % k)       # mixed content: text next to a child element
     return e
+
+
+def trim_mixed(info):
+    """Pretty printing indents children: in mixed content only the text itself is compared."""
+    if isinstance(info, dict) and "children" in info:
+        if info["children"] and isinstance(info.get("text"), str):
+            info = dict(info, text=info["text"].strip())
+        return dict(info, children=[trim_mixed(c) for c in info["children"]])
+    return info
 
 
 def arg_sets(client, rng):
@@ -269,7 +280,7 @@ def option_checks(ctx):
                         ctx.fail("request construction failed under an option setting", meta, repr(e), "a request")
                         continue
                     try:
-                        info = xmlread.infoset(xmlread.parse(env), drop_type_ns=not xstq)
+                        info = trim_mixed(xmlread.infoset(xmlread.parse(env), drop_type_ns=not xstq))
                     except xmlread.XmlError as e:
                         ctx.fail("request is not namespace-well-formed", meta, str(e), "every prefix declared in scope")
                         continue
@@ -280,7 +291,7 @@ def option_checks(ctx):
                 if ref_key not in results:
                     continue
                 ref_full = results[ref_key][0]
-                ref_nons = xmlread.infoset(xmlread.parse(results[ref_key][1]), drop_type_ns=True)
+                ref_nons = trim_mixed(xmlread.infoset(xmlread.parse(results[ref_key][1]), drop_type_ns=True))
                 for key, (info, env) in results.items():
                     ref = ref_full if key[2] else ref_nons
                     if info != ref:
@@ -291,7 +302,7 @@ def option_checks(ctx):
                                  got_info=_as_tree(info), has_raw=("raw" in kw or any(hasattr(h, "plain") for h in hv)))
                 # raw elements are carried intact
                 if "raw" in kw:
-                    want = xmlread.infoset(xmlread.parse(kw["raw"].plain()))
+                    want = trim_mixed(xmlread.infoset(xmlread.parse(kw["raw"].plain())))
                     for key, (info, env) in results.items():
                         body = [c for c in info["children"] if c["name"][1] == "Body"][0]
                         rawnode = [c for c in body["children"][0]["children"] if c["name"][1] == want["name"][1]]
@@ -300,6 +311,103 @@ def option_checks(ctx):
                                 continue   # namespace inheritance under prefixes=False: reported above (D23)
                             ctx.fail("raw Element argument not carried intact", {"form": form, "args": ai, "options": key},
                                      rawnode, want)
+
+
+def family_option_checks(ctx):
+    """(C) the generated interface family (random renderings: same prefix names bound differently per schema
+    block, namespaces without prefixes, derived types across namespaces, rpc/encoded): every request under all 16
+    option settings is namespace-well-formed, means the same, and - with xstq on - is what the schema prescribes."""
+    from harness import iface as IF, ifacecheck as K
+    n_ifaces = ctx.pick(40, 400)
+    for ident, I in K.family(ctx, n_ifaces, "C05"):
+        docs = IF.render(K.rendering_of("r:" + ident), I)
+        clients = {}
+        for key in itertools.product((True, False), repeat=4):
+            try:
+                clients[key] = K.make_client(docs, prefixes=key[0], prettyxml=key[1], xstq=key[2], sortNamespaces=key[3])
+            except Exception as e:
+                ctx.fail("WSDL of the family does not load", {"iface": ident, "options": key}, repr(e), "a client")
+        for op, case in [(o, cs) for o in I["ops"] for cs in (0, 1)]:
+            args = K.args_of(ident, I, op, case)
+            results = {}
+            for key, c in clients.items():
+                meta = {"iface": ident, "op": op["name"], "case": case, "family": True,
+                        "options": dict(zip(("prefixes", "prettyxml", "xstq", "sortNamespaces"), key))}
+                ctx.case(common.canon(meta), True)
+                ctx.dist["family:" + op["style"]] += 1
+                try:
+                    mism, env = K.check_request(c, I, op, args, "object")
+                except Exception as e:
+                    ctx.fail("request construction failed under an option setting", meta, repr(e), "a request")
+                    continue
+                if mism and key[2]:
+                    ctx.fail("request under this option setting is not the message the schema prescribes", meta,
+                             mism[:4], "the prescribed message", envelope=env.decode("utf-8", "replace")[:2000])
+                    continue
+                try:
+                    results[key] = (trim_mixed(xmlread.infoset(xmlread.parse(env), drop_type_ns=not key[2])), env)
+                except xmlread.XmlError as e:
+                    ctx.fail("request is not namespace-well-formed", meta, str(e), "every prefix declared in scope")
+            ref_key = (True, False, True, True)
+            if ref_key not in results:
+                continue
+            ref_full = results[ref_key][0]
+            ref_nons = trim_mixed(xmlread.infoset(xmlread.parse(results[ref_key][1]), drop_type_ns=True))
+            for key, (info, env) in results.items():
+                ref = ref_full if key[2] else ref_nons
+                if info != ref:
+                    ctx.fail("request differs from the reference setting in meaning",
+                             {"iface": ident, "op": op["name"], "family": True,
+                              "options": dict(zip(("prefixes", "prettyxml", "xstq", "sortNamespaces"), key))},
+                             env.decode("utf-8")[:2000], results[ref_key][1].decode("utf-8")[:2000])
+
+
+def cross_namespace_derived_probe(ctx):
+    """A derived type from another namespace, both schemas calling their own target namespace `tns`
+    (and, second variant, neither having any prefix): the element keeps its namespace under every setting."""
+    A, B = "urn:verif:a", "urn:verif:b"
+    for variant in ("same-prefix", "no-prefix"):
+        pa = ' xmlns:tns="%s"' % A if variant == "same-prefix" else ' xmlns="%s"' % A
+        pb = ' xmlns:tns="%s" xmlns:a="%s"' % (B, A) if variant == "same-prefix" else ' xmlns="%s" xmlns:a="%s"' % (B, A)
+        own_a = "tns:" if variant == "same-prefix" else ""
+        schemas = ('<xsd:schema xmlns:xsd="http://www.w3.org/2001/XMLSchema"%s targetNamespace="%s" '
+                   'elementFormDefault="qualified"><xsd:complexType name="Base"><xsd:sequence><xsd:element name="a" '
+                   'type="xsd:string"/></xsd:sequence></xsd:complexType><xsd:element name="f"><xsd:complexType>'
+                   '<xsd:sequence><xsd:element name="item" type="%sBase"/></xsd:sequence></xsd:complexType>'
+                   '</xsd:element></xsd:schema>'
+                   '<xsd:schema xmlns:xsd="http://www.w3.org/2001/XMLSchema"%s targetNamespace="%s" '
+                   'elementFormDefault="qualified"><xsd:import namespace="%s"/><xsd:complexType name="Derived">'
+                   '<xsd:complexContent><xsd:extension base="a:Base"><xsd:sequence><xsd:element name="b" '
+                   'type="xsd:string"/></xsd:sequence></xsd:extension></xsd:complexContent></xsd:complexType>'
+                   '</xsd:schema>' % (pa, A, own_a, pb, B, A))
+        w = ('<?xml version="1.0"?><wsdl:definitions targetNamespace="urn:w" xmlns:wsdl="http://schemas.xmlsoap.org/wsdl/" '
+             'xmlns:w="urn:w" xmlns:soap="http://schemas.xmlsoap.org/wsdl/soap/"><wsdl:types>%s</wsdl:types>'
+             '<wsdl:message name="fIn"><wsdl:part name="parameters" element="q:f" xmlns:q="%s"/></wsdl:message>'
+             '<wsdl:portType name="PT"><wsdl:operation name="f"><wsdl:input message="w:fIn"/></wsdl:operation>'
+             '</wsdl:portType><wsdl:binding name="B" type="w:PT"><soap:binding style="document" '
+             'transport="http://schemas.xmlsoap.org/soap/http"/><wsdl:operation name="f"><soap:operation '
+             'soapAction="f"/><wsdl:input><soap:body use="literal"/></wsdl:input></wsdl:operation></wsdl:binding>'
+             '<wsdl:service name="S"><wsdl:port name="P" binding="w:B"><soap:address location="http://x.invalid/"/>'
+             '</wsdl:port></wsdl:service></wsdl:definitions>' % (schemas, A)).encode()
+        for key in itertools.product((True, False), repeat=4):
+            meta = {"probe": "cross-namespace-derived", "variant": variant,
+                    "options": dict(zip(("prefixes", "prettyxml", "xstq", "sortNamespaces"), key))}
+            ctx.case(common.canon(meta), True)
+            try:
+                c = wsdlkit.client(w, nosend=True, prefixes=key[0], prettyxml=key[1], xstq=key[2], sortNamespaces=key[3])
+                o = c.factory.create("{%s}Derived" % B)
+                o.a, o.b = "x", "y"
+                root = xmlread.parse(wsdlkit.envelope_bytes(c.service.f(o)))
+                item = xmlread.find1(xmlread.find1(xmlread.find1(root, "Body"), "f"), "item")
+                names = [list(item["name"])] + [list(k["name"]) for k in item["children"]]
+                t = xmlread.resolve_qname(item, item["attrs"][(xmlread.XSI, "type")])
+                got = names + [list(t) if key[2] else [None, t[1]]]
+            except Exception as e:
+                got = "%s: %s" % (type(e).__name__, e)
+            want = [[A, "item"], [A, "a"], [B, "b"], [B, "Derived"] if key[2] else [None, "Derived"]]
+            if got != want:
+                ctx.fail("an element holding a derived type of another namespace changes its meaning with the options",
+                         meta, got, want)
 
 
 def _as_tree(info):
@@ -312,6 +420,8 @@ def _strip_ns(nodes):
 
 
 def run(ctx):
+    cross_namespace_derived_probe(ctx)
+    family_option_checks(ctx)
     tree_checks(ctx)
     option_checks(ctx)
     ctx.sample({"tree_pass": "promote", "note": "random namespace-well-formed trees"})
